@@ -1059,8 +1059,8 @@ class Executor:
         if sn == "Range":
             byname = {fn: v for (fn, _), v in zip(rv.fields, vals)}
             return VStruct("Range", [byname["start"], byname["end"]], self.new_vid())
-        # unknown aggregate (std struct): keep the fields positionally
-        return VStruct(dty or sn, vals, self.new_vid())
+        # unknown aggregate (std struct / derive-local enum): keep the path and the fields positionally
+        return VStruct("::".join(segs) if len(segs) > 1 else (dty or sn), vals, self.new_vid())
 
     # ---- running
     def run_function(self, func, args, depth=0):
